@@ -73,6 +73,22 @@ CHECKS = {
         technique="TLA+ Lhs/Cond/Rhs model per rule with exact integer tensor semantics, TLC exhaustive over parameter tuples, each tuple replayed through the real rule + ORT",
         design_ref="DESIGN.md section 4 C05, Appendix C",
     ),
+    "C07": dict(
+        level="model_checking",
+        text="Rewrite.tla models RewriteRuleSet._apply_to_graph_or_function / apply_to_model / rewrite() with one action per code step: the iteration "
+             "cursor over a graph mutated while iterated (stale next pointer of an erased node, replacement nodes visited by the same loop), first "
+             "applicable rule, initializer registration incl. the name-clash branch, as_function extraction, Splice (name copy, redirect of uses and graph "
+             "outputs incl. nested bodies, insertion after the root, safe erase, metadata merge), Descend/Advance/Ascend, post passes (DCE, NameFix with "
+             "exact names, the three rewrite() clean-ups); hosts are derived per rule set with instances in the main graph, If/Loop bodies and "
+             "model-local functions, overlapping instances, a val_0-named outer value, a clashing initializer, an extra graph output. Invariants: Graph!WF "
+             "and exact Eval after every Splice; signature, frame, progress, termination, name-level WF at the end. Every TLC case is rebuilt as a real "
+             "ModelProto + real RewriteRule objects and run through apply_to_model and rewrite(): no exception, checker, scope SSA, Graph!WF via TLC, ORT "
+             "before/after, signature, frame, progress; the final model must be isomorphic to the spec's.",
+        note="values are FLOAT scalars; generated rules are Neg(Neg), keep-nodes, Relu(Relu), Mul by 1, Sub->Add/Neg, Add->Sum, new-initializer, "
+             "as_function, a two-output-node pair, and ordered lists of these; quick uses nesting depth 1",
+        technique="TLA+ model of the rewrite engine (cursor, splice, post passes) with exact Eval, TLC exhaustive over derived hosts, each case replayed into rewrite()/apply_to_model + GraphCheck + ORT",
+        design_ref="DESIGN.md section 4 C07",
+    ),
     "C08": dict(
         level="model_checking",
         text="AtenOps.tla gives ATen source semantics (Aten) for 207 registered overloads in 9 families over Tensor.tla with the operator's domain as "
